@@ -154,6 +154,8 @@ const (
 	accCall
 	accClosure
 	accEscape
+	accSeq      // a complete walk of a table of functions, each receiving the object: they run in order
+	accSeqHoist // (at the loop's pre-header) the walk's definitions hold from here on every non-failing path
 )
 
 type access struct {
@@ -162,6 +164,8 @@ type access struct {
 	instr  ssa.Instruction
 	callee selfKey
 	why    string
+	seq    []selfKey       // accSeq / accSeqHoist: the entries in table order
+	site   ssa.Instruction // accSeqHoist: the walk's call instruction
 }
 
 // accessesOf lists, per instruction, what it does to the tracked object.
@@ -242,6 +246,39 @@ func (ca *carryAnalysis) accessesOf(k selfKey) map[ssa.Instruction][]access {
 			}
 			args := cc.Args
 			matched := false
+			if entries, h, ok := tableWalk(u); ok {
+				// for _, stage := range stages { if err := stage(obj); err != nil { return err } }
+				for ai, a := range args {
+					if a != self {
+						continue
+					}
+					var seq []selfKey
+					okAll := true
+					for _, f := range entries {
+						if f.Blocks == nil || ai >= len(f.Params) {
+							okAll = false
+						}
+						seq = append(seq, selfKey{f, ai})
+					}
+					var pre *ssa.BasicBlock
+					for _, p := range h.Preds {
+						if !h.Dominates(p) {
+							if pre != nil {
+								okAll = false
+							}
+							pre = p
+						}
+					}
+					if okAll && pre != nil && len(pre.Instrs) > 0 {
+						add(u, access{kind: accSeq, seq: seq})
+						add(pre.Instrs[len(pre.Instrs)-1], access{kind: accSeqHoist, seq: seq, site: u})
+						matched = true
+					}
+				}
+				if matched {
+					continue
+				}
+			}
 			for ai, a := range args {
 				if a != self {
 					continue
@@ -463,6 +500,10 @@ func (ca *carryAnalysis) analyse(k selfKey) *carrySummary {
 						for f := range cs.MustDef {
 							cur[f] = true
 						}
+					case accSeqHoist:
+						for f := range ca.composeSeq(a.seq, nil).MustDef {
+							cur[f] = true
+						}
 					}
 				}
 			}
@@ -475,6 +516,8 @@ func (ca *carryAnalysis) analyse(k selfKey) *carrySummary {
 	// second pass: collect exposure with the converged states
 	ei := errorResultIndex(fn)
 	first := true
+	seqPre := map[ssa.Instruction]fset{}
+	k0 := k
 	for _, b := range fn.Blocks {
 		cur := in[b.Index].clone()
 		if cur == nil {
@@ -532,6 +575,28 @@ func (ca *carryAnalysis) analyse(k selfKey) *carrySummary {
 					for f := range cs.MayWrite {
 						res.MayWrite[f] = true
 					}
+				case accSeqHoist:
+					seqPre[a.site] = cur.clone()
+				case accSeq:
+					pre := seqPre[ins]
+					if pre == nil {
+						pre = fset{}
+					}
+					cs := ca.composeSeq(a.seq, func(k selfKey) { ca.addCaller(k, callerSite{k0, ins}) })
+					for f := range cs.UpExp {
+						if !pre[f] {
+							res.UpExp[f] = true
+						}
+					}
+					for f := range cs.MayWrite {
+						res.MayWrite[f] = true
+					}
+					for f := range cs.Reads {
+						res.Reads[f] = true
+					}
+					if cs.Escapes != "" && res.Escapes == "" {
+						res.Escapes = cs.Escapes
+					}
 				case accEscape:
 					if res.Escapes == "" {
 						res.Escapes = a.why + " in " + load.FuncName(fn)
@@ -545,6 +610,10 @@ func (ca *carryAnalysis) analyse(k selfKey) *carrySummary {
 					cur[a.field] = true
 				case accCall:
 					for f := range ca.summary(a.callee).MustDef {
+						cur[f] = true
+					}
+				case accSeqHoist:
+					for f := range ca.composeSeq(a.seq, nil).MustDef {
 						cur[f] = true
 					}
 				}
@@ -565,6 +634,35 @@ func (ca *carryAnalysis) analyse(k selfKey) *carrySummary {
 	if first {
 		// no ok-return at all (always errors / never returns): defines nothing relevant
 		res.MustDef = ca.all()
+	}
+	return res
+}
+
+// composeSeq: the summary of calling the entries one after the other (all of them, in order).
+func (ca *carryAnalysis) composeSeq(seq []selfKey, each func(selfKey)) *carrySummary {
+	res := &carrySummary{UpExp: fset{}, MustDef: fset{}, MayWrite: fset{}, Reads: fset{}}
+	for _, k := range seq {
+		cs := ca.summary(k)
+		if each != nil {
+			each(k)
+		}
+		for f := range cs.UpExp {
+			if !res.MustDef[f] {
+				res.UpExp[f] = true
+			}
+		}
+		for f := range cs.Reads {
+			res.Reads[f] = true
+		}
+		for f := range cs.MayWrite {
+			res.MayWrite[f] = true
+		}
+		for f := range cs.MustDef {
+			res.MustDef[f] = true
+		}
+		if cs.Escapes != "" && res.Escapes == "" {
+			res.Escapes = cs.Escapes
+		}
 	}
 	return res
 }
